@@ -376,7 +376,7 @@ def private_attrs(repo):
     names = set()
     strings = set()
     for m in repo.modules.values():
-        for n in ast.walk(m.tree):
+        for n in ast.walk(ast.parse(m.source)):
             if isinstance(n, ast.Attribute) and isinstance(n.ctx, ast.Store) \
                     and isinstance(n.value, ast.Name) and n.value.id == "self" \
                     and n.attr.startswith("_") and not n.attr.startswith("__"):
@@ -422,7 +422,7 @@ def enumerate_tasks(ops):
             tasks.append(("rename-private-attr", None, a))
         ops = [o for o in ops if o != "rename-private-attr"]
     for mn, m in sorted(repo.modules.items()):
-        tree = m.tree
+        tree = ast.parse(m.source)
         for op in ops:
             if op in PER_MODULE:
                 t2 = copy.deepcopy(tree)
